@@ -137,6 +137,8 @@ pub fn run(ctx: &Ctx) {
     suite.random /= 4;
     suite.sweep16 = false;
     drive(ctx, &suite, &|f| check_json(ctx, f));
+    // 3. thorough: coverage-guided campaign (libFuzzer), JSON oracle inside the target
+    crate::fuzzrun::decode_campaign(ctx, "c07", &|f| check_json(ctx, f));
     for h in ["8d4840d6990000000000001c3a5f", "8d4840d6f8000000000000dc2a8e", "8d485020994409940838175b284f"] {
         let f = hex::decode(h).unwrap();
         let fixed = vcore::bits::finish_frame(&f[..11], 0);
